@@ -71,7 +71,7 @@ PROPS = {
         "module": "MiniMcmcVerif.Props.C14Nuts",
         "obligations": ["MiniMcmcVerif.NUTS.Gen." + n for n in ["buildTree_prime_mem", "buildTree_sel_suffix", "buildTree_leaves_chain", "buildTree_prime_admissible", "doubling_inv",
                                                                 "transition_next_state", "nuts_transition_never_bad", "iterate_logp", "nuts_transition_good_position", "unifLaws_field", "unifLaws_xr"]] + ["MiniMcmcVerif.MH.mh_reject_bad", "MiniMcmcVerif.MH.mh_reject_nan", "MiniMcmcVerif.MH.mh_never_bad",
-                        "MiniMcmcVerif.HMC.hmc_never_bad", "MiniMcmcVerif.HMC.hmc_row_mem",
+                        "MiniMcmcVerif.HMC.hmc_never_bad", "MiniMcmcVerif.HMC.hmc_row_mem", "MiniMcmcVerif.HMC.hmc_good_position",
                         "MiniMcmcVerif.NUTS.nuts_admissible_not_bad", "MiniMcmcVerif.NUTS.nuts_nan_joint",
                         "MiniMcmcVerif.XR.xr_satisfies_laws", "MiniMcmcVerif.XR.xr_satisfies_lawsE"],
         "rel32": 3e-3, "abs32": 1e-3, "rel64": 2e-5, "abs64": 2e-6,
